@@ -1,5 +1,4 @@
 package main
 
 func genTLS(repo string, write writer)    {}
-func genX509(repo string, write writer)   {}
 func genShared(repo string, write writer) {}
